@@ -4,12 +4,16 @@ mod c01;
 mod c02;
 mod c03;
 mod c04;
+mod c05;
 mod c06;
 mod c08;
+mod c09;
 mod c10;
 mod c13;
 mod c14;
 mod c15;
+mod c16;
+mod c17;
 mod c20;
 mod fd;
 mod monitor;
@@ -86,12 +90,16 @@ fn main() {
         "C02" => c02::run(mk("C02")),
         "C03" => c03::run(mk("C03")),
         "C04" => c04::run(mk("C04")),
+        "C05" => c05::run(mk("C05")),
         "C06" => c06::run(mk("C06")),
         "C08" => c08::run(mk("C08")),
+        "C09" => c09::run(mk("C09")),
         "C10" => c10::run(mk("C10")),
         "C13" => c13::run(mk("C13")),
         "C14" => c14::run(mk("C14")),
         "C15" => c15::run(mk("C15")),
+        "C16" => c16::run(mk("C16")),
+        "C17" => c17::run(mk("C17")),
         "C20" => c20::run(mk("C20")),
         _ => {
             eprintln!("unknown property {id}");
